@@ -351,7 +351,12 @@ def run(run_, tier):
     # "for the system's own Hamiltonian": the flows composed above are generated by dh1_dpos / dh2_dmom / dh2_dpos, which must be the
     # gradients of the system's h1 / h2 (C05 obligations, imported), and h2_flow must be the exact flow (C07 obligations, imported)
     from . import symla_systems
-    symla_systems.run_cases(run_, "c05_cases", keep=lambda oid: any(k in oid for k in ("dh1_dpos-is-gradient-of-h1", "dh2_dmom-is-gradient-of-h2", "dh2_dpos-is-gradient-of-h2", "h-is-sum")))
+    symla_systems.run_cases(run_, "c05_cases", keep=lambda oid: any(k in oid for k in (
+        "dh1_dpos-is-gradient-of-h1", "dh2_dmom-is-gradient-of-h2", "dh2_dpos-is-gradient-of-h2", "h-is-sum",
+        # the implicit midpoint scheme is built from dh_dpos / dh_dmom of the whole Hamiltonian
+        "dh_dpos-is-gradient-of-h", "dh_dmom-is-gradient-of-h",
+        # the force is evaluated several times at one position within and across steps (through the state cache): it must be the same force every time
+        "dh1_dpos-stable-under-repeated-evaluation", "grad-cache-not-corrupted")))
     symla_systems.run_cases(run_, "c07_cases")
     run_.extraction_drops.extend(sorted(it.dropped))
     run_.notes.append(f"paths explored: {it.paths}; solver seconds {it.solver_seconds:.2f}")
